@@ -55,7 +55,7 @@ Proof. exact op_kind_ok. Qed.
    operators with calls, signed constants and parentheses, any trivia at any slot -- is parsed to exactly the list it
    denotes, leaving exactly the rest.  The fuel bound is the size of the spelled tree. *)
 Theorem C01_statements_faithful : forall (l : StStmtProofs.sl token) rest L,
-  StStmtProofs.wf_l token StInstance.tok_class StInstance.op_level true l ->
+  StStmtProofs.wf_l token StInstance.tok_class t_text StInstance.tok_num StInstance.op_level true l ->
   StStmtProofs.closer_next token StInstance.tok_class rest ->
   (StStmtProofs.absorbs token l = true -> StInstance.st_skip rest = rest) -> StStmtProofs.size_l token l <= L ->
   StParser.plist token StInstance.tok_class t_text StInstance.tok_num StInstance.op_level L (StStmtProofs.flat_l token l ++ rest)
@@ -68,7 +68,7 @@ Theorem C01_function_block_body : forall w00 fb w0 nm w1 (l : StStmtProofs.sl to
   StExprProofs.all_triv token StInstance.tok_class w00 -> t_kind fb = KFunctionBlock ->
   StExprProofs.all_triv token StInstance.tok_class w0 -> t_kind nm = KIdentifier ->
   StExprProofs.all_triv token StInstance.tok_class w1 ->
-  StStmtProofs.wf_l token StInstance.tok_class StInstance.op_level true l ->
+  StStmtProofs.wf_l token StInstance.tok_class t_text StInstance.tok_num StInstance.op_level true l ->
   StExprProofs.all_triv token StInstance.tok_class w2 -> t_kind en = KEndFunctionBlock ->
   StExprProofs.all_triv token StInstance.tok_class w3 ->
   (StStmtProofs.absorbs token l = true -> w2 = []) ->
@@ -91,7 +91,7 @@ Theorem C01_declarations_faithful : forall w00 fb w0 nm (bl : list (DeclProofs.s
   StExprProofs.all_triv token StInstance.tok_class w0 -> t_kind nm = KIdentifier ->
   Forall (DeclProofs.wf_wb token StInstance.tok_class) bl ->
   StExprProofs.all_triv token StInstance.tok_class w1 ->
-  StStmtProofs.wf_l token StInstance.tok_class StInstance.op_level true l ->
+  StStmtProofs.wf_l token StInstance.tok_class t_text StInstance.tok_num StInstance.op_level true l ->
   StExprProofs.all_triv token StInstance.tok_class w2 -> t_kind en = KEndFunctionBlock ->
   StExprProofs.all_triv token StInstance.tok_class w3 ->
   (StStmtProofs.absorbs token l = true -> w2 = []) ->
